@@ -273,10 +273,11 @@ where
                 }
             }
 
-            // Skip if outside boundary.
+            // Only the initial state can be outside the boundary here (successors are filtered
+            // below); there is no in-boundary path to report anything about.
             if !model.within_boundary(&state) {
                 log::trace!("Found state outside of boundary");
-                break;
+                return;
             }
 
             // add the current fingerprint to the path
@@ -354,8 +355,9 @@ where
                 }
             }
             if !is_awaiting_discoveries {
+                // return not break here as this state is not known to be terminal.
                 log::trace!("Found all discoveries");
-                break;
+                return;
             }
 
             // generate the possible next actions
@@ -380,6 +382,10 @@ where
                     None => {
                         // this action was ignored, try and choose another
                         log::trace!("No next state");
+                    }
+                    Some(next_state) if !model.within_boundary(&next_state) => {
+                        // leaving the boundary is not a step, try and choose another
+                        log::trace!("Next state outside of boundary");
                     }
                     Some(next_state) => {
                         // now clear the actions for the next round
